@@ -11,7 +11,9 @@ RULE = ("programs over the full mnemonic set (every zero-operand opcode of the r
         "labels; every program rendered in a random legal layout (blank lines, leading blanks, trailing and full-line comments, `;` "
         "separators); every case assembled twice by the harness in fresh assemblers (repeat-run clause); 150 (thorough 2000) DECORATED "
         "instruction programs of the layout theorem's family, given to the model as structure: it renders them with Layout.render, checks "
-        "Layout.WF and that its rendering is byte-for-byte the text the implementation assembled. The output is decoded by an "
+        "Layout.WF and that its rendering is byte-for-byte the text the implementation assembled; 150 (thorough 3000) members of the text "
+        "family of ProgText.parse_prog (labels, pushN <expr>, %push(<expr>), instructions, any layout) generated and rendered by the model "
+        "itself (`proggen`) and assembled by the real code. The output is decoded by an "
         "independent linear sweep and aligned one-to-one with the reference item list. non-trivial = at least 5 instructions")
 EXHAUSTIVE = {"quick": False, "thorough": False}
 ASSUMPTIONS = []
@@ -101,6 +103,27 @@ def cases(rng, tier):
     cs = family_cases(rng, [("ops", G.gen_ops), ("macros", G.gen_macros)], n // 2, faults=0.0)
     prepare([])
     cs += [gen_decorated(rng, big=(tier == "thorough" and i % 50 == 0)) for i in range(150 if tier == "quick" else 2000)]
+    cs += progtext_cases(rng, 150 if tier == "quick" else 3000)
+    return cs
+
+
+def progtext_cases(rng, n):
+    """members of the text family of ProgText.parse_prog (labels, pushN <expr>, %push(<expr>), instructions, any layout),
+    generated and rendered BY THE MODEL (`proggen`), then assembled by the real code: the tie then compares the two answers
+    on exactly the texts the theorem is about.  `nodes=1`: the model's own walk gave one node per statement."""
+    reqs = [f"proggen {rng.randrange(1 << 40)} {rng.choice([0, 1, 2, 3, 5, 8, 13])}" for _ in range(n)]
+    outs = C.run_lines(C.MODEL_EXE, reqs, timeout=600)
+    cs = []
+    for q, o in zip(reqs, outs):
+        m = o and __import__("re").match(r"text=(\S+) nodes=(\d)", o)
+        if not m:
+            cs.append({"line": "asm -", "tags": ["progtext", "generator-failed"], "src": f"{q} -> {o}", "want_ok": "generator-failed"})
+            continue
+        h = m.group(1)
+        c = {"line": f"asm {h}", "tags": ["progtext"], "src": bytes.fromhex(h).decode("utf-8", "replace") if h != "-" else ""}
+        if m.group(2) != "1":
+            c["want_ok"] = "model-walk-did-not-give-one-node-per-statement"
+        cs.append(c)
     return cs
 
 
@@ -126,8 +149,11 @@ MANIFEST = {
             "C02_fresh_satisfiable); LAYOUT (C02_layout, C02_layout_bytes): for programs over the full mnemonic set and every push width "
             "with hex operands, any legal decoration — blanks, `#` comments with any body (also `;`, `%`, `:`, quotes, statements), blank "
             "and comment-only lines, LF/CRLF, `;` separators, an unterminated last statement — parses (full pest interpreter over the "
-            "regenerated grammar) to the same nodes and assembles to exactly the concatenation of the instructions' bytes. Layouts of "
-            "programs with labels, macros and directives are exercised by the correspondence (random legal layouts), not proved.",
+            "regenerated grammar) to the same nodes and assembles to exactly the concatenation of the instructions' bytes; TEXT TO BYTES (C02_text): "
+            "for every macro-free program text (instructions, pushN <expr>, %push(<expr>), label definitions, any layout, operand expressions "
+            "with literals in four radixes, negatives, labels, nested parentheses) preprocess yields one raw op per statement and assemble "
+            "succeeds exactly when Spec.assembleItems does on the statements' items, with the same bytes. Programs with macros and "
+            "directives are exercised at text level by the correspondence (random legal layouts), not proved.",
     "note": "Trusted: Lean kernel; Asm/Assemble.lean tied by the differential run over the whole mnemonic set and all push widths; the "
             "mnemonic -> opcode mapping is the regenerated table (C17) and grammar (C03 table theorems); parsing is the generic pest "
             "interpreter over the regenerated grammar, tied by the same run.",
